@@ -716,7 +716,10 @@ func (s *storage) Shrink(stopAfter time.Duration) bool {
 				anyFound = true
 			}
 			if !table.isFree && table.Len() == 0 {
-				s.archetypes[table.archetype].FreeTable(table)
+				archetype := &s.archetypes[table.archetype]
+				archetype.FreeTable(table)
+				archetype.removeTableRelations(table)
+				s.cache.removeTable(table)
 				anyFound = true
 			}
 		}
